@@ -12,7 +12,7 @@ from vlib.oracles import hypersphere
 from vlib.rec import REC
 
 AMBIG_LO, AMBIG_HI = 1e-13, 1e-8
-BORDER_TOL = 1e-5      # observed agreement 4e-10; a correct implementation that rounds cosines to 7 decimals is off by ~2e-7
+BORDER_TOL = 2e-8      # absolute part; observed agreement with the repaired tree <= 7e-9 over every grid of the thorough sweep (N <= 130)
 MAX_N = 10 ** 9          # cross-cutting users lower this so that foreign workloads do not pay the O(N^2) LPs for big grids
 _CACHE = {}
 
@@ -98,7 +98,7 @@ def judge_points(P, result, what, holder=None):
             elif what == "border_len":
                 area = np.where(direct > AMBIG_HI, direct, anti)
                 judged = one_face & stored
-                bad = judged & (np.abs(D - area) > BORDER_TOL + 1e-7 * area)
+                bad = judged & (np.abs(D - area) > BORDER_TOL + 1e-6 * area)
                 if bad.any():
                     i, j = np.argwhere(bad)[0]
                     problems.append({"border": [int(i), int(j)], "reported": D[i, j], "face_area": area[i, j],
